@@ -1017,7 +1017,7 @@ func genScenarios(o *common.Opts, rng *rand.Rand) []Scenario {
 	var scs []Scenario
 	n := 1
 	if o.Thorough() {
-		n = 12
+		n = 9
 	}
 	delays := []int{0, 1, 3, 10, 30, 100, 250, 500, 750, 900}
 	for rep := 0; rep < n; rep++ {
